@@ -17,12 +17,17 @@ from modcorpus import *
 import c03_util as U
 import c02 as C02
 import ext_layer            # extensibility layer (lib/ext_layer.py, notes/design/EXT.md)
+import c03_tagmap as TM
+import c03_oerpos as P
+import c03_regions as RG
 
 F_CHAIN = "C03-ber-chain-mixed-lengths"
 
 
-def ber_variants(plan, rng, tier):
-    """yields (label, bytes, ch-string|None, mixed-chain?, segmented?)"""
+def ber_variants(plan, rng, tier, light=False):
+    """yields (label, bytes, ch-string|None, mixed-chain?, segmented?)
+    light: the directed values of the tag-map modules (the value, not the length forms, is what varies there): DER itself,
+    everything indefinite / long / both, two random mixes"""
     nodes = plan.nodes
     k = len(nodes)
     out = []
@@ -32,7 +37,28 @@ def ber_variants(plan, rng, tier):
         out.append((label, b, ch, bool(plan.mixed_chains()), any(n.seg is not None for n in nodes),
                     any(n.seg is not None and n.own_desc for n in nodes)))
 
+    plan.reset()
+    emit("der")          # DER is a member of the family
     kmax = 6 if tier == "quick" else 8
+    if light:
+        for lab, f in (("all-indef", lambda n: "i" if n.cons else "s"),
+                       ("all-long", lambda n: "l%d" % (U.min_len_octets(len(n.content)) + 1 + (0 if not n.cons else 2))),
+                       ("indef+long", lambda n: "i" if n.cons else "l%d" % (U.min_len_octets(len(n.content)) + 3))):
+            plan.reset()
+            for n in nodes:
+                n.lf = f(n)
+            emit(lab)
+        for i in range(2 if tier == "quick" else 6):
+            plan.reset()
+            U.random_choices(plan, rng, seg_ok=False, indef_ok=(i % 2 == 0))
+            emit("mix")
+        plan.reset()
+        seen, res = set(), []
+        for v in out:
+            if v[1] not in seen:
+                seen.add(v[1])
+                res.append(v)
+        return res
     if k <= kmax:
         for mask in range(1, 2 ** k):
             plan.reset()
@@ -111,7 +137,7 @@ def ber_part(run, model, mods, cases, rng, tier):
             except (ValueError, IndexError) as e:
                 run.violation("harness:plan", {"what": "cannot parse the model's DER along the type: %s" % e, "model_type": c["ts"], "der": c["der"]}, no_input=True)
                 continue
-            vs = ber_variants(plan, rng, tier)
+            vs = ber_variants(plan, rng, tier, light=c.get("light", False))
             # the reference decoder of the model is quadratic in the number of TLVs: few variants of long values
             k = len(plan.nodes)
             cap = (4 if k > 120 else 8 if k > 40 else 10**6) if tier == "quick" else (8 if k > 400 else 16 if k > 120 else 10**6)
@@ -222,63 +248,47 @@ def uper_part(run, model, mods, cases, rng, tier):
 
 
 def oer_part(run, model, mods, cases, rng, tier):
-    bm = by_module(cases)
-    for m in mods:
-        if not m.get("exe"):
+    """every length determinant / quantity of the encoding in every legal non-canonical form, one position at a time, all at
+    once, random mixes (lib/c03_oerpos.py, lib/c03_regions.py:oer_sweep)"""
+    jobs = []
+    nlight = 0
+    for c in cases:
+        m = c["mod"]
+        if not m.get("exe") or c["oer"] == "NONE" or len(c["der"]) > 6000:
             continue
-        lines, meta = [], []
-        for c in bm.get(m["name"], []):
-            if c["oer"] == "NONE" or len(c["der"]) > 6000:
+        if c.get("light"):
+            # the directed tag-map values differ in which members are present, not in their determinants: a sample
+            nlight += 1
+            if nlight % (6 if tier == "quick" else 2):
                 continue
-            tree = m["trees"][c["tn"]]
-            try:
-                val = U.Plan(tree, bytes.fromhex(c["der"])).value()
-            except (ValueError, IndexError):
-                continue
-            canon = U.OerVar(lambda what: (0, False, 0))
-            b0 = canon.enc(tree, val)
-            if b0.hex() != (c["oer"] if c["oer"] != "-" else ""):
-                run.violation("harness:oer-encoder", {"what": "the check's own OER encoder and the model disagree on the canonical encoding", "model_type": c["ts"],
-                                                      "value": c["vs"], "python": b0.hex(), "model": c["oer"]}, no_input=True)
-                continue
-            if canon.nlen + canon.nqty == 0:
-                run.count("oer_no_length_fields")
-                continue
-            picks = [("pad%d" % k, (lambda k: (lambda what: (k, False, 0)))(k)) for k in (1, 2, 3)]
-            picks.append(("long0", lambda what: (0, True, 0)))
-            picks.append(("qtyzeros", lambda what: (0, False, rng.range(1, 3) if what == "qty" else 0)))
-            for i in range(3 if tier == "quick" else 8):
-                picks.append(("mix", lambda what: (rng.below(4), rng.chance(1, 2), rng.below(3) if what == "qty" else 0)))
-            seen = {b0}
-            for lab, pk in picks:
-                e = U.OerVar(pk)
-                b = e.enc(tree, val)
-                if b in seen:
-                    continue
-                seen.add(b)
-                lines.append("dec %s oer %s" % (c["tn"], b.hex()))
-                meta.append((c, lab, b, getattr(e, "long_qty", False)))
-        out = run_mod(run, m, lines, "C03-oer")
-        # long-form quantity lengths are outside the reference decoder (it reads the quantity's length as one
-        # octet and would then count to an astronomically large number): those variants go to the C only
-        midx = [i for i, (c, lab, b, lq) in enumerate(meta) if not lq]
-        rcm, mo2, merr = run_lines(model, ["oerdec %s %s" % (meta[i][0]["ts"], meta[i][2].hex()) for i in midx], timeout=1200)
-        mout = ["(not run)"] * len(meta)
-        for i, o2 in zip(midx, mo2):
-            mout[i] = o2
-        for (c, lab, b, lq), l, o, mo in zip(meta, lines, out, mout):
-            run.case(l)
-            run.count("oer_" + lab)
-            exp = "OK %d %s ck=" % (len(b), c["der"])
-            replay = {"module": m["text"], "type": c["tn"], "model_type": c["ts"], "value": c["vs"], "variant_kind": lab, "command_line": l,
-                      "c": o, "expected": exp, "model": mo, "canonical_oer": c["oer"]}
-            if mo != "OK %d %s" % (len(b), c["vs"]) and not lq:
-                # (the reference decoder reads a quantity's length as one octet: undefined on long-form quantity lengths)
-                run.violation("model:Oer.oer_dec", dict(replay, what="the reference OER decoder does not return the value on a variant"), no_input=True)
-            if not o.startswith(exp):
-                run.violation("oracle:oer_complete", dict(replay, what="the C OER decoder does not return OK / full length / the value on a valid encoding"))
-        if meta:
-            run.sample({"type": meta[-1][0]["ts"], "oer": meta[-1][0]["oer"][:60], "variant": meta[-1][2].hex()[:80]})
+        tree = m["trees"][c["tn"]]
+        try:
+            val = U.Plan(tree, bytes.fromhex(c["der"])).value()
+        except (ValueError, IndexError):
+            continue
+        jobs.append({"mod": m, "tn": c["tn"], "ts": c["ts"], "vs": c["vs"], "tree": tree, "pyval": val, "segs": P.enc(tree, val),
+                     "der": c["der"], "canon": c["oer"], "ext": None, "maxpos": (8 if tier == "quick" else 24), "setof": "t" in c["ts"]})
+    RG.oer_sweep(run, model, jobs, rng, tier, "C03-oer")
+
+
+def ext_oer_part(run, model, captured, rng, tier):
+    """the extensible types of the ext layer (same modules and values as ext_layer.run_c03): the length of the extension
+    presence bitmap, of every open type (extension additions, extension alternatives of a CHOICE) and every determinant
+    inside the components, in every legal form"""
+    jobs = []
+    for c in captured.get("cases", []):
+        m = c["m"]
+        if not m.get("exe") or c["oer"] == "NONE" or len(c["oer"]) // 2 > ext_layer.BIG or ext_layer.degenerate(c["x"]):
+            continue
+        x = c["x"]
+        try:
+            segs = P.enc_ext(x, c["v"])
+        except (ValueError, IndexError, TypeError, AttributeError):
+            run.count("oer_ext_skipped_value")
+            continue
+        jobs.append({"mod": m, "tn": c["tn"], "ts": x["ety"], "vs": c["vs"], "pyval": c["v"], "segs": segs, "der": c["der"], "canon": c["oer"],
+                     "ext": x, "maxpos": (6 if tier == "quick" else 16), "setof": ext_layer.has_setof(c), "setof_reordered": ext_layer.has_setof(c)})
+    RG.oer_sweep(run, model, jobs, rng, tier, "ext:C03-oer")
 
 
 def xer_part(run, mods, cases, rng, tier):
@@ -340,12 +350,15 @@ def main(tier):
         run.violation("build", {"what": str(e)[-2500:]}, no_input=True)
         return run.finish("proof", (nthm, ndis))
     model = model_build()
-    # hand-made module: OCTET STRING types and members under IMPLICIT / EXPLICIT tags
+    # hand-made modules: OCTET STRING types and members under IMPLICIT / EXPLICIT tags (MO3); the tag-to-member map
+    # families (MT1: SEQUENCE + CHOICE, inside the modelled algebra; MT2: SET) of lib/c03_tagmap.py
     sm = U.string_module()
-    build_modules([sm], tag="c03x")
-    mods.append(sm)
+    mt1, mt2 = TM.modules(tier)
+    mo5 = RG.wide_module()
+    build_modules([sm, mt1, mt2, mo5], tag="c03x", moddrv_extra=os.path.join(HARNESS, "moddrv_c03.inc"))
+    mods += [sm, mt1]
+    sc = []
     if sm.get("exe"):
-        sc = []
         for tn, _ in sm["defs"]:
             tree, seen = sm["trees"][tn], set()
             for _ in range(6 if tier == "quick" else 16):
@@ -353,15 +366,24 @@ def main(tier):
                 if vs not in seen:
                     seen.add(vs)
                     sc.append({"mod": sm, "tn": tn, "ts": model_str(tree), "vs": vs})
+    if mt1.get("exe"):
+        sc += RG.directed_cases(mt1, tier)
+    if sc:
         ml = []
         for c in sc:
             ml += ["der %s %s" % (c["ts"], c["vs"]), "uper 0 %s %s" % (c["ts"], c["vs"]), "uper 1 %s %s" % (c["ts"], c["vs"]), "oer %s %s" % (c["ts"], c["vs"])]
         rcm, mo, me = run_lines(model, ml, timeout=600)
         if rcm != 0 or len(mo) != len(ml):
-            raise RuntimeError("model driver failed (MO3): %s %s" % (rcm, me))
+            raise RuntimeError("model driver failed (MO3/MT1): %s %s" % (rcm, me))
         for i, c in enumerate(sc):
             c["der"], c["uper"], c["uperstd"], c["oer"] = mo[4 * i:4 * i + 4]
+            if c.get("light") and c["der"] != TM.der(mt1["trees"][c["tn"]], c["pyval"]).hex():
+                run.violation("harness:der-encoder", {"what": "the DER encoder of lib/c03_tagmap.py and the model disagree", "model_type": c["ts"], "value": c["vs"],
+                                                      "model": c["der"], "python": TM.der(mt1["trees"][c["tn"]], c["pyval"]).hex()}, no_input=True)
         cases += [c for c in sc if c["der"] != "NONE"]
+    if not mt2.get("exe"):
+        run.violation("build:module", {"what": "the directed SET module was rejected or its code does not compile", "module": mt2["text"],
+                                       "asn1c_out": mt2.get("asn1c_out", "")[-1200:], "build_log": mt2.get("build_log", "")[-1200:]})
     for m in mods:
         if not m.get("exe"):
             run.violation("build:module", {"what": "a valid generated module was rejected or its code does not compile", "module": m["text"],
@@ -369,15 +391,38 @@ def main(tier):
     import time
     t0 = time.time()
     log("C03: corpus built %.1fs" % (t0 - T0))
+    RG.tagmap_part(run, model, mt1, mt2, rng, tier)
+    t0 = time.time()
     ber_part(run, model, mods, cases, rng, tier)
     log("C03: ber %.1fs" % (time.time() - t0)); t0 = time.time()
     uper_part(run, model, mods, cases, rng, tier)
     log("C03: uper %.1fs" % (time.time() - t0)); t0 = time.time()
     oer_part(run, model, mods, cases, rng, tier)
+    RG.wide_oer_part(run, mo5, rng, tier)
     log("C03: oer %.1fs" % (time.time() - t0)); t0 = time.time()
     xer_part(run, mods, cases, rng, tier)
     log("C03: xer %.1fs" % (time.time() - t0))
-    ext_layer.run_c03(run, rng, tier)
+    # the ext layer builds its modules and values itself; they are captured here for the OER determinant sweep
+    captured = {}
+    orig_build, orig_encode = ext_layer.build, ext_layer.model_encode
+
+    def build_cap(*a, **kw):
+        r = orig_build(*a, **kw)
+        captured["mods"] = r[0]
+        return r
+
+    def encode_cap(*a, **kw):
+        r = orig_encode(*a, **kw)
+        captured["cases"] = r
+        return r
+    ext_layer.build, ext_layer.model_encode = build_cap, encode_cap
+    try:
+        ext_layer.run_c03(run, rng, tier)
+    finally:
+        ext_layer.build, ext_layer.model_encode = orig_build, orig_encode
+    t0 = time.time()
+    ext_oer_part(run, model, captured, Rng(run.seed * 1000003 + 33), tier)
+    log("C03: ext oer sweep %.1fs" % (time.time() - t0))
     tb = ["Coq 8.16.1 kernel", "axioms under Print Assumptions: " + (", ".join(sorted(axioms)) or "none (Closed under the global context)"),
           "extraction: ExtrOcamlBasic only; OCaml 4.13.1", "lib/c03_util.py (independent variant generators), lib/modgen.py, harness/moddrv.c, gcc + ASan/UBSan"]
     return run.finish("proof", (nthm, ndis), trusted_base=tb,
